@@ -1,228 +1,36 @@
 import ScVerif.C20.MeterConc
+import ScVerif.C20.GauLemmas
 /-!
-# C20 / Meter — invariant of the interleaving model (lemmas)
-
-`GInv`: the stored reading is ordered (`start ≤ end ≤ now`, both recorded), and every thread's locals
-are consistent with the clock: a value it read was ordered when read, a clock reading is not in the
-future, and — for a call that reads the clock *inside* the transaction — the start time of the value
-it read is not after its clock reading.  The last clause is what makes `RecordReading` safe, and it
-is exactly what is lost when the clock is read before the transaction.
+# C20 / Meter — the meter's calls satisfy the generic interleaving theorem's conditions
 -/
 namespace ScVerif.C20.Meter
+open Gau
 
 /-- both times recorded, start ≤ end ≤ now -/
 def Ordered (r : Reading) (now : Int) : Prop :=
   ∃ s e, r.start = some s ∧ r.stop = some e ∧ s ≤ e ∧ e ≤ now
 
-/-- a call as the code makes them: only a call that overwrites start *and* end may read the clock
-before the transaction -/
-def Call.Shaped (c : Call) : Prop := ∀ v, c.eff = .record v → c.early = false
-
-def PhaseInv (c : Call) (now : Int) : Phase → Prop
-  | .start => True
-  | .haveOld o => Ordered o now
-  | .haveT t => t ≤ now ∧ c.early = true      -- only an early call reads the clock first
-  | .both o t => Ordered o now ∧ t ≤ now ∧ (c.early = false → ∃ s, o.start = some s ∧ s ≤ t)
-  | .ready o t => Ordered o now ∧ t ≤ now ∧ (c.early = false → ∃ s, o.start = some s ∧ s ≤ t)
-
-/-- a returned reading has both times and start ≤ end -/
-def ResOk : Res → Prop
-  | .ok r => ∃ s e, r.start = some s ∧ r.stop = some e ∧ s ≤ e
-  | .aborted => True
-
-structure ThreadInv (now : Int) (th : Thread) : Prop where
-  cur : ∀ c p, th.cur = some (c, p) → c.Shaped ∧ PhaseInv c now p
-  todo : ∀ c ∈ th.todo, c.Shaped
-  results : ∀ r ∈ th.results, ResOk r
-
-structure GInv (c : Cfg) : Prop where
-  store : Ordered c.store c.now
-  threads : ∀ th ∈ c.threads, ThreadInv c.now th
-
-theorem Ordered.mono {r : Reading} {now : Int} (h : Ordered r now) (d : Nat) : Ordered r (now + d) := by
+theorem Ordered.mono : Gau.Mono Ordered := by
+  intro r t t' hle h
   obtain ⟨s, e, hs, he, hse, hen⟩ := h
   exact ⟨s, e, hs, he, hse, by omega⟩
 
-theorem PhaseInv.mono {c : Call} {now : Int} {p : Phase} (h : PhaseInv c now p) (d : Nat) :
-    PhaseInv c (now + d) p := by
-  cases p with
-  | start => trivial
-  | haveOld o => exact Ordered.mono h d
-  | haveT t => exact ⟨by have := h.1; omega, h.2⟩
-  | both o t => exact ⟨Ordered.mono h.1 d, by have := h.2.1; omega, h.2.2⟩
-  | ready o t => exact ⟨Ordered.mono h.1 d, by have := h.2.1; omega, h.2.2⟩
+/-- `RecordReading` reads the clock inside the transaction and keeps the period ordered at that instant -/
+theorem recordCall_ok (v : String) : (recordCall v).OK Ordered := by
+  refine ⟨fun _ o t ho _ => ?_, fun he => by simp [recordCall] at he⟩
+  obtain ⟨s, e, hs, _, hse, het⟩ := ho
+  exact ⟨s, t, by simp [recordCall, recordReading, merge, hs], by simp [recordCall, recordReading, merge], by omega, Int.le_refl _⟩
 
-theorem ThreadInv.mono {now : Int} {th : Thread} (h : ThreadInv now th) (d : Nat) :
-    ThreadInv (now + d) th :=
-  ⟨fun c p hc => ⟨(h.cur c p hc).1, PhaseInv.mono (h.cur c p hc).2 d⟩, h.todo, h.results⟩
+/-- `Reset` reads the clock early but overwrites both times -/
+theorem resetCall_ok : resetCall.OK Ordered := by
+  refine ⟨fun he => by simp [resetCall] at he, fun _ o t => ?_⟩
+  exact ⟨t, t, by simp [resetCall, reset, merge], by simp [resetCall, reset, merge], Int.le_refl _, Int.le_refl _⟩
 
-/-- the value a shaped call computes from an ordered `old` and a consistent clock reading is ordered -/
-theorem apply_ordered (c : Call) (hc : c.Shaped) (o : Reading) (t now : Int)
-    (_ho : Ordered o now) (ht : t ≤ now) (hl : c.early = false → ∃ s, o.start = some s ∧ s ≤ t) :
-    Ordered (c.eff.apply o t) now := by
-  obtain ⟨eff, early⟩ := c
-  cases eff with
-  | reset => exact ⟨t, t, by simp [Effect.apply, reset, merge], by simp [Effect.apply, reset, merge], Int.le_refl _, ht⟩
-  | record v =>
-    have he : early = false := hc v rfl
-    obtain ⟨s, hs, hst⟩ := hl he
-    exact ⟨s, t, by simp [Effect.apply, recordReading, merge, hs], by simp [Effect.apply, recordReading, merge], hst, ht⟩
-
-/-- one atomic step of a call keeps the store ordered, the call's locals consistent, and returns an
-ordered reading (or `Aborted`) -/
-theorem callStep_inv (store : Reading) (now : Int) (c : Call) (p : Phase) (hc : c.Shaped)
-    (hs : Ordered store now) (hp : PhaseInv c now p) :
-    Ordered (callStep store now c p).1 now ∧ PhaseInv c now (callStep store now c p).2.1 ∧
-    ∀ r, (callStep store now c p).2.2 = some r → ResOk r := by
-  cases p with
-  | start =>
-    simp only [callStep]
-    split
-    · next he => exact ⟨hs, ⟨Int.le_refl _, he⟩, by simp⟩
-    · exact ⟨hs, hs, by simp⟩
-  | haveOld o =>
-    refine ⟨hs, ⟨hp, Int.le_refl _, fun _ => ?_⟩, by simp [callStep]⟩
-    obtain ⟨s, e, h1, _, h3, h4⟩ := hp
-    exact ⟨s, h1, by omega⟩
-  | haveT t =>
-    exact ⟨hs, ⟨hs, hp.1, fun he => by simp [hp.2] at he⟩, by simp [callStep]⟩
-  | both o t => exact ⟨hs, hp, by simp [callStep]⟩
-  | ready o t =>
-    simp only [callStep]
-    split
-    · have := apply_ordered c hc o t now hp.1 hp.2.1 hp.2.2
-      refine ⟨this, trivial, fun r hr => ?_⟩
-      simp only [Option.some.injEq] at hr
-      subst hr
-      obtain ⟨s, e, h1, h2, h3, _⟩ := this
-      exact ⟨s, e, h1, h2, h3⟩
-    · exact ⟨hs, trivial, fun r hr => by simp only [Option.some.injEq] at hr; subst hr; trivial⟩
-
-/-- one atomic step of a thread keeps the store ordered and the thread consistent -/
-theorem threadStep_inv (store : Reading) (now : Int) (th : Thread)
-    (hs : Ordered store now) (ht : ThreadInv now th) :
-    Ordered (threadStep store now th).1 now ∧ ThreadInv now (threadStep store now th).2 := by
-  have go : ∀ (c : Call) (p : Phase) (todo : List Call), c.Shaped → PhaseInv c now p →
-      (∀ c' ∈ todo, c'.Shaped) →
-      Ordered (match callStep store now c p with
-        | (s', p', none) => ((s', ⟨some (c, p'), todo, th.results⟩) : Reading × Thread)
-        | (s', _, some r) => (s', ⟨none, todo, r :: th.results⟩)).1 now ∧
-      ThreadInv now (match callStep store now c p with
-        | (s', p', none) => ((s', ⟨some (c, p'), todo, th.results⟩) : Reading × Thread)
-        | (s', _, some r) => (s', ⟨none, todo, r :: th.results⟩)).2 := by
-    intro c p todo hc hp htodo
-    have h := callStep_inv store now c p hc hs hp
-    generalize callStep store now c p = out at h
-    obtain ⟨s', p', r⟩ := out
-    cases r with
-    | none =>
-      refine ⟨h.1, ⟨fun c2 p2 heq => ?_, htodo, ht.results⟩⟩
-      simp only [Option.some.injEq, Prod.mk.injEq] at heq
-      obtain ⟨rfl, rfl⟩ := heq
-      exact ⟨hc, h.2.1⟩
-    | some r =>
-      refine ⟨h.1, ⟨fun c2 p2 heq => by simp at heq, htodo, fun r' hr' => ?_⟩⟩
-      rcases List.mem_cons.mp hr' with rfl | hr'
-      · exact h.2.2 _ rfl
-      · exact ht.results _ hr'
-  obtain ⟨cur, todo, results⟩ := th
-  cases cur with
-  | some cp =>
-    obtain ⟨c, p⟩ := cp
-    have := ht.cur c p rfl
-    exact go c p todo this.1 this.2 ht.todo
-  | none =>
-    cases todo with
-    | nil => exact ⟨hs, ht⟩
-    | cons c rest =>
-      exact go c .start rest (ht.todo c (List.mem_cons_self ..)) trivial
-        (fun c' hc' => ht.todo c' (List.mem_cons_of_mem _ hc'))
-
-theorem step_inv (c : Cfg) (ev : Ev) (h : GInv c) : GInv (c.step ev) := by
-  cases ev with
-  | tick d => exact ⟨Ordered.mono h.store d, fun th hth => ThreadInv.mono (h.threads th hth) d⟩
-  | step i =>
-    simp only [Cfg.step]
-    cases hth : c.threads[i]? with
-    | none => exact h
-    | some th =>
-      have hmem : th ∈ c.threads := List.mem_of_getElem? hth
-      have := threadStep_inv c.store c.now th h.store (h.threads th hmem)
-      refine ⟨this.1, fun th' hth' => ?_⟩
-      rcases List.mem_or_eq_of_mem_set hth' with h' | rfl
-      · exact h.threads th' h'
-      · exact this.2
-
-theorem run_inv (sched : List Ev) : ∀ c : Cfg, GInv c → GInv (c.run sched) := by
-  induction sched with
-  | nil => intro c h; exact h
-  | cons ev rest ih => intro c h; exact ih _ (step_inv c ev h)
-
-/-- threads that have not started, with shaped programs, satisfy the thread invariant -/
-theorem ofCalls_inv (now : Int) (cs : List Call) (h : ∀ c ∈ cs, c.Shaped) :
-    ThreadInv now (Thread.ofCalls cs) :=
-  ⟨fun _ _ he => by simp [Thread.ofCalls] at he, h, fun _ hr => by simp [Thread.ofCalls] at hr⟩
-
-/-- a step either leaves the store alone or applies the sequential op of the committing call to it,
-at a time the call read from the clock -/
-theorem callStep_seq (store : Reading) (now : Int) (c : Call) (p : Phase) :
-    (callStep store now c p).1 = store ∨
-    ∃ o t, p = .ready o t ∧ store = o ∧ (callStep store now c p).1 = Meter.step store (c.eff.op t) := by
-  cases p with
-  | start => left; simp only [callStep]; split <;> rfl
-  | haveOld o => left; rfl
-  | haveT t => left; rfl
-  | both o t => left; rfl
-  | ready o t =>
-    simp only [callStep]
-    split
-    · next heq =>
-      right
-      refine ⟨o, t, rfl, heq, ?_⟩
-      subst heq
-      cases h : c.eff <;> simp [Effect.apply, Effect.op, Meter.step]
-    · left; rfl
-
-theorem threadStep_seq (store : Reading) (now : Int) (th : Thread) :
-    ((threadStep store now th).1 = store ∧
-      ∀ r, (threadStep store now th).2.results = .ok r :: th.results → False) ∨
-    ∃ cl o t, th.cur = some (cl, .ready o t) ∧ store = o ∧
-      (threadStep store now th).1 = Meter.step store (cl.eff.op t) ∧
-      (threadStep store now th).2.results = .ok (Meter.step store (cl.eff.op t)) :: th.results := by
-  obtain ⟨cur, todo, results⟩ := th
-  cases cur with
-  | none =>
-    cases todo with
-    | nil =>
-      left
-      refine ⟨rfl, fun r hr => ?_⟩
-      simp only [threadStep] at hr
-      exact absurd (congrArg List.length hr) (by simp)
-    | cons c rest =>
-      left
-      by_cases he : c.early = true
-      · exact ⟨by simp [threadStep, callStep, he], fun r hr => absurd (congrArg List.length hr) (by simp [threadStep, callStep, he])⟩
-      · exact ⟨by simp [threadStep, callStep, he], fun r hr => absurd (congrArg List.length hr) (by simp [threadStep, callStep, he])⟩
-  | some cp =>
-    obtain ⟨c, p⟩ := cp
-    cases p with
-    | start =>
-      left
-      by_cases he : c.early = true
-      · exact ⟨by simp [threadStep, callStep, he], fun r hr => absurd (congrArg List.length hr) (by simp [threadStep, callStep, he])⟩
-      · exact ⟨by simp [threadStep, callStep, he], fun r hr => absurd (congrArg List.length hr) (by simp [threadStep, callStep, he])⟩
-    | haveOld o => left; exact ⟨rfl, fun r hr => absurd (congrArg List.length hr) (by simp [threadStep, callStep])⟩
-    | haveT t => left; exact ⟨rfl, fun r hr => absurd (congrArg List.length hr) (by simp [threadStep, callStep])⟩
-    | both o t => left; exact ⟨rfl, fun r hr => absurd (congrArg List.length hr) (by simp [threadStep, callStep])⟩
-    | ready o t =>
-      by_cases heq : store = o
-      · right
-        subst heq
-        refine ⟨c, store, t, rfl, rfl, ?_⟩
-        have : c.eff.apply store t = Meter.step store (c.eff.op t) := by
-          cases h : c.eff <;> simp [Effect.apply, Effect.op, Meter.step]
-        simp [threadStep, callStep, this]
-      · left
-        simp [threadStep, callStep, heq]
+theorem codeCalls_ok (prog : List (Option String)) : ∀ c ∈ codeCalls prog, c.OK Ordered := by
+  intro c hc
+  obtain ⟨o, _, rfl⟩ := List.mem_map.mp hc
+  cases o with
+  | none => exact resetCall_ok
+  | some v => exact recordCall_ok v
 
 end ScVerif.C20.Meter
